@@ -34,6 +34,9 @@ def units(tier, seed):
         {"sid": "basic", "family": "inline_s", "size": 5 if q else 6, "donor": ("inline_s", 4 if q else 5)},
         {"sid": "list", "family": "lists", "size": 12 if q else 14, "donor": ("lists", 10 if q else 12)},
         {"sid": "list", "family": "astral", "size": 6 if q else 8, "donor": ("astral", 5 if q else 6)},
+        # ... and the documents replaces RETURN, examined as live objects (histories of two operations)
+        {"sid": "list", "family": "astral2", "size": 5 if q else 6, "donor": ("astral2", 4), "chain": True, "tag": "chain"},
+        {"sid": "basic", "family": "inline_s", "size": 4, "donor": ("inline_s", 3), "chain": True, "tag": "chain"},
         {"sid": "iso", "family": "iso", "size": 8 if q else 10, "donor": ("iso", 7 if q else 8)},
         {"sid": "table", "family": "table", "size": 12 if q else 16, "donor": ("table", 12 if q else 14)},
         {"sid": "struct", "family": "struct", "size": 6 if q else 7, "donor": ("struct", 6 if q else 7)},
@@ -91,6 +94,8 @@ def run_unit(u):
                         ncases += 1
                         if twin is not None and len(S) <= 3:
                             check_twin(c, d, node, twin, a, b, sl, lsl, res, top_attrs[0])
+                        if u.get("chain") and len(S) <= 3:
+                            check_chain(c, d, node, a, b, sl, lsl, res)
                 except engine.Watchdog:
                     res.violate("c02.hang", {"kind": "range", "schema": c.id, "doc": d, "from": a, "to": b},
                                 "watchdog", size=n)
@@ -100,6 +105,56 @@ def run_unit(u):
     if docs:
         res.sample({"schema": c.id, "doc": docs[-1], "from": 1, "to": 2, "slice": pool[min(3, len(pool) - 1)]})
     return res
+
+
+def check_chain(c, d, node, a, b, sl, lsl, res):
+    """The document a replace RETURNS (built by cutting and merging nodes of its inputs) is itself a document: every
+    slice of it and every deletion on it must again be the token splice - compared on the live result object, not on
+    an equal document rebuilt from JSON."""
+    try:
+        r = node.replace(a, b, lsl)
+    except Exception:  # noqa: BLE001  (judged by the replace clause)
+        return
+    rj = r.to_json()
+    T2 = tk.doc_tokens(c.model, rj)
+    n2 = len(T2)
+    base = {"kind": "chain", "schema": c.id, "doc": d, "from": a, "to": b, "slice": sl}
+    for x in range(n2 + 1):
+        if rsl.is_midpair(T2, x):
+            continue
+        for y in range(x, n2 + 1):
+            if rsl.is_midpair(T2, y):
+                continue
+            res.transitions += 1
+            case = {**base, "then": [x, y]}
+            try:
+                s2 = r.slice(x, y)
+                exp_c, exp_os, exp_oe = rsl.ref_slice(T2, x, y)
+                got = (tk.jkey(s2.content.to_json() or []), s2.open_start, s2.open_end)
+                if got != (tk.jkey(exp_c), exp_os, exp_oe) or s2.size != y - x:
+                    res.violate("c02.chain.slice", case, list(got), [tk.jkey(exp_c), exp_os, exp_oe], size=n2)
+                    return
+            except Exception as e:  # noqa: BLE001
+                res.violate("c02.chain.slice.raises", case, common.exc_str(e),
+                            fingerprint="c02.chain.slice.raises:" + common.exc_fp(e), size=n2)
+                return
+            if y - x > 2:
+                continue
+            # deleting the range again
+            E = rsl.splice(T2, x, y, [])
+            content = tk.parse_content(E)
+            try:
+                r2 = r.replace(x, y, adapters.Slice.empty)
+            except adapters.ReplaceError:
+                continue
+            except Exception as e:  # noqa: BLE001
+                res.violate("c02.chain.delete.raises", case, common.exc_str(e),
+                            fingerprint="c02.chain.delete.raises:" + common.exc_fp(e), size=n2)
+                return
+            res.validated += 1
+            if content is not None and tk.jkey(r2.content.to_json() or []) != tk.jkey(content):
+                res.violate("c02.chain.delete", case, tk.jkey(r2.content.to_json() or [])[:300], tk.jkey(content)[:300], size=n2)
+                return
 
 
 def check_slice(c, d, node, T, a, b, res):
@@ -270,6 +325,8 @@ def replay(case):
             attr = list(c.model.types[c.model.top].attrs)[0]
             twin = node.type.create({attr: 7}, node.content)
             check_twin(c, d, node, twin, case["from"], case["to"], case["slice"], c.slice(case["slice"]), res, attr)
+        if case["kind"] == "chain":
+            check_chain(c, d, node, case["from"], case["to"], case["slice"], c.slice(case["slice"]), res)
         if case["kind"] == "replace":
             sl = case["slice"]
             check_replace(c, d, node, T, case["from"], case["to"], sl, c.slice(sl), rsl.slice_tokens(c.model, sl), res)
